@@ -5,7 +5,7 @@ Local Open Scope string_scope.
 Import ListNotations.
 From Snaps Require Import Base.Bytes Base.Lines Base.Dec Base.Assoc.
 From Snaps Require Import Model.Frame Model.PathModel Model.Mode Model.Api.
-From Snaps Require Import Proofs.BytesP Proofs.StandaloneP Proofs.ApiP Proofs.HistoryP Proofs.UpdateHistoryP Proofs.StandaloneHistoryP.
+From Snaps Require Import Proofs.BytesP Proofs.StandaloneP Proofs.StandaloneNameP Proofs.ApiP Proofs.HistoryP Proofs.UpdateHistoryP Proofs.StandaloneHistoryP.
 
 (* The bytes of the file are exactly the formatted value: no header, terminator,
    escaping or added newline - for every byte sequence, carriage returns included. *)
@@ -52,6 +52,16 @@ Theorem C19_kth_file : forall s a c test ps i, i < length ps ->
   subst_d (stand_generic s c test) (dec (get1 (s_srunning s) (stand_generic s c test) + S i)).
 Proof. exact stand_kth. Qed.
 Print Assumptions C19_kth_file.
+
+(* ... and file k is <dir>/<Filename, or the test name with / replaced by _>_<k>.snap<Ext>, for EVERY test name, Filename,
+   directory and extension - a '%' or "%d" inside them included (fix F8; Proofs/PercentP.v) *)
+Theorem C19_kth_file_named : forall s a c test ps i, i < length ps ->
+  nth i (stand_calls s a c test ps) [] =
+  join2 (if is_abs (c_dir c) then c_dir c else join2 (dirname (s_caller s)) (c_dir c))
+        ((match c_filename c with [] => replace_byte slash 95%N test | f => f end)
+           ++ B "_" ++ dec (get1 (s_srunning s) (stand_generic s c test) + S i) ++ B ".snap" ++ c_ext c)%list.
+Proof. exact stand_kth_named. Qed.
+Print Assumptions C19_kth_file_named.
 
 (* non-vacuity: a concrete state in which a carriage-return value is stored and replayed *)
 Example C19_example :
